@@ -245,7 +245,7 @@ pub fn run_until(p: &Program, mode: Mode, limits: Limits, stop: &mut dyn FnMut(&
     });
     let steps = match &r {
         Guarded::Budget(s) => *s,
-        _ => 0,
+        _ => crate::guard::last_steps(),
     };
     match r {
         Guarded::Ok(()) => {}
@@ -356,7 +356,7 @@ pub fn run_with(p: &Program, mode: Mode, limits: Limits, check_lifecycle: bool) 
     });
     let steps = match &r {
         Guarded::Budget(s) => *s,
-        _ => 0,
+        _ => crate::guard::last_steps(),
     };
     match r {
         Guarded::Ok(()) => {}
@@ -460,7 +460,7 @@ pub fn run_collect_user(p: &Program, mode: Mode, limits: Limits, check_lifecycle
     });
     let steps = match &r {
         Guarded::Budget(s) => *s,
-        _ => 0,
+        _ => crate::guard::last_steps(),
     };
     match r {
         Guarded::Ok(()) => {}
